@@ -21,6 +21,7 @@ ASSUMPTIONS = ["the independent model vf/model/{blssig,h2c,bls12381}.py and its 
                "anchored by RFC 9380 J.9.1/J.10.1, EIP-2333 and Ethereum consensus-spec BLS vectors",
                "hashlib.sha256 is correct"]
 ENGINE = "hypothesis"
+TECHNIQUE = ("differential property-based testing (Hypothesis) against an independent implementation of the IETF draft anchored by published vectors; cross-suite call sequences")
 _REQ = ["cross_suite_sequence", "sign:basic", "sign:aug", "sign:pop", "pop_prove", "aggregate:n>=2", "anchor:eth_sig", "anchor:eth_agg",
         "anchor:eth_pk", "sign:sk>=200b", "sign:msg=empty", "sign:msg=56-64", "aggregate:non_subgroup", "aggregate:prefix_sums_to_identity"]
 REQUIRED_LABELS = {"quick": _REQ, "thorough": _REQ}
